@@ -458,123 +458,162 @@ theorem upper_bound_is_spec {v : Vec} {xs : List Val} (h : Rep v xs) (hs : xs.Pa
 example : ∃ v xs b, Rep v xs ∧ xs.Pairwise (· ≤ ·) ∧ v.data = some b ∧ xs = [1, 3, 3, 7] :=
   ⟨vecOf 4 [1, 3, 3, 7], _, _, Rep.mk (by decide), by decide, rfl, rfl⟩
 
-/-- flat_set::insert / count: on a sorted storage the modelled `std::lower_bound` loop returns the first
-    index whose element is not less than the key (`lbSpec`) -/
-theorem lower_bound_is_spec (xs : List Int) (k : Int) (hs : xs.Pairwise (· ≤ ·)) :
-    lowerBound xs k xs.length 0 xs.length = lbSpec k xs ∧ lbSpec k xs ≤ xs.length ∧
-    (∀ i (hi : i < xs.length), i < lbSpec k xs → xs[i] < k) ∧
-    (∀ hi : lbSpec k xs < xs.length, ¬ xs[lbSpec k xs] < k) :=
-  ⟨lowerBound_sorted xs k hs, lbSpec_le k xs, fun _ hi hlt => lt_of_lt_lbSpec hlt hi, fun hi => not_lt_at_lbSpec hi⟩
+/-- flat_set::insert / count: on a storage that is strictly increasing under the comparator `lt` (any
+    transitive `lt`) the modelled `std::lower_bound` loop returns the first index whose element is not less
+    than the key (`lbSpec`) -/
+theorem lower_bound_is_spec (lt : Int → Int → Bool) (ht : LtTrans lt) (xs : List Int) (k : Int) (hs : Sorted lt xs) :
+    lowerBound lt xs k xs.length 0 xs.length = lbSpec lt k xs ∧ lbSpec lt k xs ≤ xs.length ∧
+    (∀ i (hi : i < xs.length), i < lbSpec lt k xs → lt xs[i] k = true) ∧
+    (∀ hi : lbSpec lt k xs < xs.length, lt xs[lbSpec lt k xs] k = false) :=
+  ⟨lowerBound_sorted lt ht xs k hs, lbSpec_le lt k xs, fun _ hi hlt => lt_of_lt_lbSpec hlt hi, fun hi => not_lt_at_lbSpec hi⟩
 
-example : ([1, 3, 3, 7] : List Int).Pairwise (· ≤ ·) ∧ lowerBound [1, 3, 3, 7] 3 4 0 4 = 1 ∧
-    lowerBound [1, 3, 3, 7] 8 4 0 4 = 4 := by decide
+example : LtTrans ltInt ∧ Sorted ltInt [1, 3, 4, 7] ∧ lowerBound ltInt [1, 3, 4, 7] 3 4 0 4 = 1 ∧
+    lowerBound ltInt [1, 3, 4, 7] 8 4 0 4 = 4 := ⟨strictWeak_ltInt.trans, by decide, by decide, by decide⟩
 
-/-- flat_map::insert: on a storage sorted by key the modelled `std::upper_bound` loop returns `ubSpec` of
-    the keys; on any storage (operator[] and emplace append at the end, so it need not be sorted) the
-    position stays inside `[0, size]` -/
-theorem map_upper_bound_is_spec (m : List (Int × Int)) (k : Int) :
-    mapUpper m k m.length 0 m.length ≤ m.length ∧
-    ((keysOf m).Pairwise (· ≤ ·) → mapUpper m k m.length 0 m.length = ubSpec k (keysOf m)) :=
-  ⟨mapUpper_le m k, mapUpper_sorted m k⟩
+/-- flat_map::insert: on a storage strictly increasing by key the modelled `std::upper_bound` loop returns
+    `ubSpecBy` of the keys (first index whose key is greater); on any storage (operator[] and emplace append
+    at the end, so it need not be sorted) the position stays inside `[0, size]` -/
+theorem map_upper_bound_is_spec (lt : Int → Int → Bool) (m : List (Int × Int)) (k : Int) :
+    mapUpper lt m k m.length 0 m.length ≤ m.length ∧
+    (LtTrans lt → Sorted lt (keysOf m) → mapUpper lt m k m.length 0 m.length = ubSpecBy lt k (keysOf m)) :=
+  ⟨mapUpper_le lt m k, fun ht hs => mapUpper_sorted lt ht m k hs⟩
 
-example : (keysOf [(1, 10), (4, 40)]).Pairwise (· ≤ ·) := by decide
+example : Sorted ltInt (keysOf [(1, 10), (4, 40)]) := by decide
 
-/-! ### flat_map against std::map, flat_set against std::set
+/-! ### flat_map against std::map, flat_set against std::set — for every comparator
 
-  Key order: `<` on `Int` (std::less<int>; a strict LINEAR order, the harness instantiates int keys and a
-  heap-owning key compared by its int).  std::map<int,int> = a partial function `Int → Option Int`
-  (`mapSpecNext` / `mapRetOk` in Flat.lean), std::set<int> = a membership predicate `Int → Bool`
-  (`setSpecNext` / `setRetOk`). -/
+  `lt` is the `Compare` object of the container and of std::map / std::set; the theorems hold for every
+  STRICT WEAK ORDER (`StrictWeak lt`: irreflexive, transitive, incomparability transitive — what the standard
+  requires; a linear order is not needed: "smaller last digit" makes 11 and 21 one key).  Two keys are the
+  same key when neither is before the other.  std::map = a function from keys to the stored entry with the
+  same key (`mapSpecNext` / `mapRetOk` in Flat.lean), std::set = a function from keys to the stored element
+  with the same key (`setSpecNext` / `setRetOk`).  The driver / harness instantiate std::less<int>,
+  std::greater<int>, "smaller last digit" and std::greater<std::string> on the decimal text. -/
 
-/-- ONE OPERATION of flat_map.  If the storage holds every key once and `f` is the partial function it
-    stores, then the operation answers what std::map answers in state `f` (operator[] default-inserts 0 and
-    returns the mapped value, `m[k] = v` overwrites, insert/emplace do NOT overwrite and report the entry that
-    is in the map afterwards, find = the mapped value or end(), count ∈ {0,1}, at throws iff the key is
-    absent, size = number of keys) and the new storage again holds every key once and stores std::map's new
-    partial function. -/
-theorem flat_map_step_refines {m : FMap} {f : Int → Option Int} (h : MRep m f) (op : MOp) :
-    mapRetOk f op (m.step op).2 ∧ MRep (m.step op).1 (mapSpecNext f op) := mapStep_refines h op
+/-- the hypothesis `StrictWeak lt` is satisfiable, also by an order that is not linear -/
+example : StrictWeak ltInt ∧ StrictWeak (fun a b => decide (b < a)) ∧ StrictWeak (fun a b => decide (a.tmod 10 < b.tmod 10)) :=
+  ⟨strictWeak_ltInt, strictWeak_greater, strictWeak_lastDigit⟩
 
-example : MRep {} (fun _ => none) := MRep.empty
+/-- ONE OPERATION of flat_map.  If no two stored keys are the same key and `f` maps every key to the stored
+    entry with the same key, then the operation answers what std::map answers in state `f` (operator[]
+    default-inserts 0 and returns the mapped value, `m[k] = v` overwrites the mapped value, insert/emplace do
+    NOT overwrite and report the entry that is in the map afterwards, find = the mapped value or end(),
+    count ∈ {0,1}, at throws iff the key is absent, size = number of distinct keys) and the new storage again
+    holds every key once and stores std::map's new state. -/
+theorem flat_map_step_refines {lt : Int → Int → Bool} (h : StrictWeak lt) {m : FMap} {f : Int → Option (Int × Int)}
+    (hm : MRep lt m f) (op : MOp) :
+    mapRetOk lt f op (m.step lt op).2 ∧ MRep lt (m.step lt op).1 (mapSpecNext lt f op) := mapStep_refines h hm op
 
-/-- REFINEMENT (clause 3 of C02, flat_map).  For every initializer list `init` (duplicates allowed; `[]` =
-    the default-constructed map) and every history of operator[] (read and write), insert, emplace, find,
-    count, at, size, clear and re-initialisation, the answers of flat_map are the answers of std::map
-    constructed from the same list, and the final storage holds every key once with std::map's values. -/
-theorem flat_map_refines (init : List (Int × Int)) (ops : List MOp) :
-    MapHist (fun k => assoc k init) ops ((FMap.ofList init {}).run ops).2 ∧
-    MRep ((FMap.ofList init {}).run ops).1 (mapSpecRun (fun k => assoc k init) ops) :=
-  mapRun_refines ((ofList_rep init MRep.empty).ext (by funext k; simp)) ops
+example : MRep ltInt {} (fun _ => none) := MRep.empty
+
+/-- REFINEMENT (clause 3 of C02, flat_map).  For every strict weak order, every initializer list `init`
+    (duplicates allowed; `[]` = the default-constructed map) and every history of operator[] (read and
+    write), insert, emplace, find, count, at, size, clear and re-initialisation, the answers of flat_map are
+    the answers of std::map with the same comparator constructed from the same list, and the final storage
+    holds every key once with std::map's entries. -/
+theorem flat_map_refines {lt : Int → Int → Bool} (h : StrictWeak lt) (init : List (Int × Int)) (ops : List MOp) :
+    MapHist lt (fun k => entry lt k init) ops ((FMap.ofList lt init {}).run lt ops).2 ∧
+    MRep lt ((FMap.ofList lt init {}).run lt ops).1 (mapSpecRun lt (fun k => entry lt k init) ops) :=
+  mapRun_refines h ((ofList_rep h init MRep.empty).ext (by funext k; simp)) ops
 
 /-- the same from any state that satisfies the invariant -/
-theorem flat_map_refines_from {m : FMap} {f : Int → Option Int} (h : MRep m f) (ops : List MOp) :
-    MapHist f ops (m.run ops).2 ∧ MRep (m.run ops).1 (mapSpecRun f ops) := mapRun_refines h ops
+theorem flat_map_refines_from {lt : Int → Int → Bool} (h : StrictWeak lt) {m : FMap} {f : Int → Option (Int × Int)}
+    (hm : MRep lt m f) (ops : List MOp) :
+    MapHist lt f ops (m.run lt ops).2 ∧ MRep lt (m.run lt ops).1 (mapSpecRun lt f ops) := mapRun_refines h hm ops
 
 /-- what the model answers on a concrete history (the answers `flat_map_refines` speaks about) -/
-example : ((FMap.ofList [(1, 10), (1, 20), (3, 30)] {}).run
+example : ((FMap.ofList ltInt [(1, 10), (1, 20), (3, 30)] {}).run ltInt
       [.size, .insert 1 99, .index 2, .assign 2 7, .emplace 2 8, .emplace 0 5, .count 1, .at 4, .find 2, .size]).2 =
     [.nat 2, .kv 1 10, .val 0, .unit, .flag false 7, .flag true 5, .nat 1, .throw, .opt (some 7), .nat 4] := by decide
 
-/-- INVARIANT: in every reachable state no key is stored twice, hence `count(k) ≤ 1` and
+/-- … and with the comparator "smaller last digit": 11 and 21 are one key, the stored key stays 11 -/
+example : ((FMap.ofList (fun a b => decide (a.tmod 10 < b.tmod 10)) [(11, 1), (21, 2), (5, 3)] {}).run
+      (fun a b => decide (a.tmod 10 < b.tmod 10))
+      [.size, .insert 31 9, .assign 41 7, .find 1, .count 21, .emplace 15 0, .at 2, .insert 2 4, .size]).2 =
+    [.nat 2, .kv 11 1, .unit, .opt (some 7), .nat 1, .flag false 3, .throw, .kv 2 4, .nat 3] := by decide
+
+/-- INVARIANT: in every reachable state no two stored keys are the same key, hence `count(k) ≤ 1` and
     `size()` = number of distinct keys -/
-theorem flat_map_keys_unique (init : List (Int × Int)) (ops : List MOp) (k : Int) :
-    (keysOf ((FMap.ofList init {}).run ops).1.st).Nodup ∧ ((FMap.ofList init {}).run ops).1.count k ≤ 1 := by
-  have h := (flat_map_refines init ops).2
-  refine ⟨h.uniq, ?_⟩
-  rw [FMap.count, count_eq k _ h.uniq]
+theorem flat_map_keys_unique {lt : Int → Int → Bool} (h : StrictWeak lt) (init : List (Int × Int)) (ops : List MOp) (k : Int) :
+    Distinct lt (keysOf ((FMap.ofList lt init {}).run lt ops).1.st) ∧
+    ((FMap.ofList lt init {}).run lt ops).1.count lt k ≤ 1 := by
+  have hm := (flat_map_refines h init ops).2
+  refine ⟨hm.uniq, ?_⟩
+  rw [FMap.count, count_eq h k _ hm.uniq]
   split <;> omega
 
-/-- flat_map::insert keeps a storage that is strictly sorted by key strictly sorted (a map filled by
+/-- flat_map::insert keeps a storage that is strictly increasing by key strictly increasing (a map filled by
     `insert` alone therefore iterates in std::map's order; operator[] / emplace append at the end and do
     not — iteration order is not part of C02) -/
-theorem flat_map_insert_keeps_sorted (m : FMap) (k v : Int) (hs : (keysOf m.st).Pairwise (· < ·)) :
-    (keysOf (m.insert k v).1.st).Pairwise (· < ·) := by
-  simp only [FMap.insert, find_eq_assoc]
-  cases hf : assoc k m.st with
+theorem flat_map_insert_keeps_sorted {lt : Int → Int → Bool} (h : StrictWeak lt) (m : FMap) (k v : Int)
+    (hs : Sorted lt (keysOf m.st)) : Sorted lt (keysOf (m.insert lt k v).1.st) := by
+  simp only [FMap.insert, findEntry_eq]
+  cases hf : entry lt k m.st with
   | some w => exact hs
   | none =>
     simp only [keysOf_listInsert]
-    have e := mapUpper_sorted m.st k (sorted_le_of_lt hs)
+    have e := mapUpper_sorted lt h.ltTrans m.st k hs
     simp only [keysOf] at e ⊢
     rw [e]
-    exact sorted_insert_ub k _ hs ((assoc_none_iff k m.st).mp hf)
+    refine sorted_insert_ub h k _ hs ?_
+    intro a ha
+    obtain ⟨p, hp, rfl⟩ := List.mem_map.mp ha
+    exact (lookupBy_none_iff (·.1) k m.st).mp hf p hp
 
-example : (keysOf (FMap.ofList [(1, 10), (4, 40)] {}).st).Pairwise (· < ·) := by decide
+example : Sorted ltInt (keysOf (FMap.ofList ltInt [(1, 10), (4, 40)] {}).st) := by decide
 
 /-- before the fix `flat_map{{1,10},{1,20}}.count(1)` was 2 -/
-theorem flat_map_init_dup_orig_witness : (FMap.ofListOrig [(1, 10), (1, 20)]).count 1 = 2 := by decide
+theorem flat_map_init_dup_orig_witness : (FMap.ofListOrig [(1, 10), (1, 20)]).count ltInt 1 = 2 := by decide
 
 /-- after the fix the first entry of a key wins, like std::map -/
 theorem flat_map_init_dup_fixed :
-    (FMap.ofList [(1, 10), (1, 20)] {}).count 1 = 1 ∧ (FMap.ofList [(1, 10), (1, 20)] {}).find 1 = some 10 := by decide
+    (FMap.ofList ltInt [(1, 10), (1, 20)] {}).count ltInt 1 = 1 ∧ (FMap.ofList ltInt [(1, 10), (1, 20)] {}).find ltInt 1 = some 10 := by
+  decide
 
-/-- ONE OPERATION of flat_set.  If the storage is strictly increasing and holds exactly the members of `S`,
-    the operation answers what std::set answers (count = membership, iteration = the members in increasing
-    order, size = their number) and the new storage is again strictly increasing and holds exactly the
-    members of std::set's new set. -/
-theorem flat_set_step_refines {s : FSet} {S : Int → Bool} (h : SRep s S) (op : SOp) :
-    setRetOk S op (s.step op).2 ∧ SRep (s.step op).1 (setSpecNext S op) := setStep_refines h op
+/-- 6ba4c7a (flat_map ignored its Compare parameter: lookup with ==, insert ordered with <, i.e. the model
+    run with std::less whatever the comparator): `flat_map<int,int,ByLastDigit>{{0,10},{10,30}}` kept both
+    entries and did not find 20; with the fix the answers are std::map's (`flat_map_refines`) -/
+theorem flat_map_ignores_compare_orig_witness :
+    ((FMap.ofList ltInt [(0, 10), (10, 30)] {}).run ltInt [.find 20, .count 10, .size]).2 =
+      [.opt none, .nat 1, .nat 2] ∧
+    ((FMap.ofList (fun a b => decide (a.tmod 10 < b.tmod 10)) [(0, 10), (10, 30)] {}).run
+      (fun a b => decide (a.tmod 10 < b.tmod 10)) [.find 20, .count 10, .size]).2 =
+      [.opt (some 10), .nat 1, .nat 1] := by decide
 
-example : SRep {} (fun _ => false) := SRep.empty
+/-- ONE OPERATION of flat_set.  If the storage is strictly increasing under the comparator and `S` maps every
+    key to the stored element with the same key, the operation answers what std::set answers (count =
+    presence of the key, iteration = the stored elements in increasing order, size = their number) and the
+    new storage is again strictly increasing and represents std::set's new state. -/
+theorem flat_set_step_refines {lt : Int → Int → Bool} (h : StrictWeak lt) {s : FSet} {S : Int → Option Int}
+    (hr : SRep lt s S) (op : SOp) :
+    setRetOk lt S op (s.step lt op).2 ∧ SRep lt (s.step lt op).1 (setSpecNext lt S op) := setStep_refines h hr op
 
-/-- REFINEMENT (clause 3 of C02, flat_set).  For every history of insert, count, size, clear and iteration
-    from the empty set the answers of flat_set are the answers of std::set, and the storage is strictly
-    increasing (invariant) with exactly std::set's members. -/
-theorem flat_set_refines (ops : List SOp) :
-    SetHist (fun _ => false) ops (FSet.run {} ops).2 ∧
-    SRep (FSet.run {} ops).1 (setSpecRun (fun _ => false) ops) := setRun_refines SRep.empty ops
+example : SRep ltInt {} (fun _ => none) := SRep.empty
 
-theorem flat_set_refines_from {s : FSet} {S : Int → Bool} (h : SRep s S) (ops : List SOp) :
-    SetHist S ops (s.run ops).2 ∧ SRep (s.run ops).1 (setSpecRun S ops) := setRun_refines h ops
+/-- REFINEMENT (clause 3 of C02, flat_set).  For every strict weak order and every history of insert, count,
+    size, clear and iteration from the empty set the answers of flat_set are the answers of std::set with the
+    same comparator, and the storage is strictly increasing (invariant) with exactly std::set's elements. -/
+theorem flat_set_refines {lt : Int → Int → Bool} (h : StrictWeak lt) (ops : List SOp) :
+    SetHist lt (fun _ => none) ops (FSet.run lt {} ops).2 ∧
+    SRep lt (FSet.run lt {} ops).1 (setSpecRun lt (fun _ => none) ops) := setRun_refines h SRep.empty ops
 
-example : (FSet.run {} [.insert 5, .insert 2, .insert 5, .insert 9, .count 5, .count 4, .size, .iter, .clear, .size]).2 =
+theorem flat_set_refines_from {lt : Int → Int → Bool} (h : StrictWeak lt) {s : FSet} {S : Int → Option Int}
+    (hr : SRep lt s S) (ops : List SOp) :
+    SetHist lt S ops (s.run lt ops).2 ∧ SRep lt (s.run lt ops).1 (setSpecRun lt S ops) := setRun_refines h hr ops
+
+example : (FSet.run ltInt {} [.insert 5, .insert 2, .insert 5, .insert 9, .count 5, .count 4, .size, .iter, .clear, .size]).2 =
     [.unit, .unit, .unit, .unit, .nat 1, .nat 0, .nat 3, .keys [2, 5, 9], .unit, .nat 0] := by decide
 
-/-- "the members in increasing order" is a function of the set: two strictly increasing lists with the
-    same members are equal (so `setRetOk` fixes the answer of `iter` and `size` uniquely) -/
-theorem flat_set_enumeration_unique (a b : List Int) (ha : a.Pairwise (· < ·)) (hb : b.Pairwise (· < ·))
-    (h : ∀ j, j ∈ a ↔ j ∈ b) : a = b := sorted_enum_unique a b ha hb h
+/-- std::greater<int>: `insert 5, insert 1, count(1)` is 1 (a `count` that bisects with operator< instead of
+    the comparator — the seeded change C02-flat-set-count-ignores-comp — answers 0 here) -/
+example : (FSet.run (fun a b => decide (b < a)) {} [.insert 5, .insert 1, .count 1, .insert 7, .iter]).2 =
+    [.unit, .unit, .nat 1, .unit, .keys [7, 5, 1]] := by decide
 
-example : ([2, 5, 9] : List Int).Pairwise (· < ·) := by decide
+/-- "the stored elements in increasing order" is a function of the set: two strictly increasing lists with
+    the same elements are equal (so `setRetOk` fixes the answer of `iter` and `size` uniquely) -/
+theorem flat_set_enumeration_unique {lt : Int → Int → Bool} (h : StrictWeak lt) (a b : List Int)
+    (ha : Sorted lt a) (hb : Sorted lt b) (hab : ∀ j, j ∈ a ↔ j ∈ b) : a = b := sorted_enum_unique h a b ha hb hab
+
+example : Sorted ltInt [2, 5, 9] := by decide
 
 end Igris.C02
